@@ -26,7 +26,9 @@ ASSUMPTIONS = ["generator preconditions from the statement: pin cites followed b
                "group/edition equality is waived (counted as 'second_pattern_tie') when another extractor with a "
                "different group structure matches exactly the same characters",
                "expected court id = first exact-normalised citation_string in courts-db, else last prefix match"]
-FLOORS = {"quick": {"extractors_total": 6000, "minimal_forms_checked": 40000, "literal_forms_checked": 6000, "examples_checked": 700,
+FLOORS = {"quick": {"db_members_checked": 3000, "db_members_ok": 2500, "db_members:laws": 500, "db_members:journals": 500,
+                    "law_literals_checked": 1200, "law_literal_ok:'§'": 150, "law_literal_ok:'§§ '": 150, "law_literal_ok:'§§'": 150,
+                    "extractors_total": 6000, "minimal_forms_checked": 40000, "literal_forms_checked": 6000, "examples_checked": 700,
                     "form:full": 1200, "form:full_parallel": 300, "form:short": 500, "form:supra": 500,
                     "form:id": 500, "form:journal": 500, "form:law": 400, "form:antecedent_full": 500, "form:document": 500, "document_written_citations": 2500, "courts_checked": 300, "courts_exhaustive": 1800,
                     "pin_cites_checked": 1000},
@@ -406,6 +408,106 @@ def law_literal(rec, text, st, core, groups, case):
                     rec.sample(dict(tie=text, other=m.group(0), got=[(M.kind(c), c.span()) for c in cs]))
                 return
     fail(rec, "law_literal", case, observed=[(M.kind(c), c.span(), c.groups) for c in cs], expected=dict(span=(st, en), groups=groups))
+
+
+# ------------------------------------------------------------------ members of the *database's* own patterns
+
+def db_patterns():
+    """(source, key, name written, edition name, regex) for every template of every reporter edition, journal
+    and law of reporters-db, expanded with reporters-db's own variables and utilities - not with the
+    library's pattern builder (which widens these patterns: its language must contain this one)."""
+    from string import Template
+    from reporters_db import JOURNALS, LAWS, REGEX_VARIABLES, REPORTERS
+    from reporters_db.utils import recursive_substitute
+    out = []
+
+    def add(source, key, names, edition, templates):
+        for t in templates:
+            try:
+                rt = recursive_substitute(t, REGEX_VARIABLES)
+            except Exception:
+                continue
+            for n in names:
+                out.append((source, key, n, edition, Template(rt).safe_substitute(edition=re.escape(n), reporter=f"(?P<reporter>{re.escape(n)})")))
+
+    for key, cl in sorted(REPORTERS.items()):
+        for src in cl:
+            for en, ed in src["editions"].items():
+                add("reporters", key, [en] + sorted(v for v, t in src["variations"].items() if t == en), en,
+                    ed.get("regexes") or ["$full_cite"])
+    for key, cl in sorted(JOURNALS.items()):
+        for src in cl:
+            add("journals", key, [key] + sorted(src.get("variations") or []), key, src.get("regexes") or ["$full_cite"])
+    for key, cl in sorted(LAWS.items()):
+        for src in cl:
+            add("laws", key, [key] + sorted(src.get("variations") or []), key, src.get("regexes") or [])
+    return out
+
+
+_DBP = None
+
+
+def run_db_members(spec, rec, rng):
+    from eyecite.models import FullCaseCitation, FullJournalCitation, FullLawCitation
+    global _DBP
+    if _DBP is None:
+        _DBP = db_patterns()
+    cls = {"reporters": FullCaseCitation, "journals": FullJournalCitation, "laws": FullLawCitation}
+    # the edition name always; of the variations a rotating sample (they are many)
+    for n, (source, key, name, edition, regex) in enumerate(_DBP):
+        if n % spec["nshards"] != spec["i"]:
+            continue
+        if name != edition and (n // spec["nshards"] + spec["seed"]) % 3:
+            continue
+        try:
+            rx = re.compile(regex)
+            pool = list(cover(regex, rng, 0, max_samples=2 + spec["k"], maxrep=2, ascii_only=True))
+        except Exception:
+            rec.count("db_pattern_not_sampled")
+            continue
+        for core in pool:
+            m = rx.fullmatch(core)
+            if not m or "\n" in core or core != core.strip():
+                continue
+            groups = {k: v for k, v in m.groupdict().items() if v is not None}
+            pre = rng.choice(["See ", "under ", "", "The court held otherwise in "])
+            term = rng.choice([". Further text follows.", "; further text.", ".", ", and more."])
+            text = pre + core + term
+            case = dict(text=text, origin=dict(db=source, key=key, name=name, sign=source), core=core)
+            db_literal(rec, text, len(pre), core, groups, case, cls[source])
+
+
+def db_literal(rec, text, st, core, groups, case, cls):
+    from eyecite.models import ReferenceCitation
+    cs = extract(text, rec, case)
+    if cs is None:
+        return
+    rec.ev()
+    rec.nontrivial(text)
+    rec.count("db_members_checked")
+    rec.count("db_members:" + case["origin"]["db"])
+    en = st + len(core)
+    good = [c for c in cs if type(c) is cls and c.span() == (st, en)
+            and all(c.groups.get(k) == v for k, v in groups.items())]
+    rest = [c for c in cs if c not in good and not isinstance(c, ReferenceCitation)]
+    if len(good) == 1 and not rest:
+        rec.count("db_members_ok")
+        return
+    # a second pattern on (part of) the same characters with another extent or group structure?
+    for o in gen.DB.cit_extractors:
+        if o.strings and not any(x in text for x in o.strings):
+            continue
+        for m in o.compiled_regex.finditer(text):
+            a, b = m.span(1) if m.re.groups else m.span()
+            if b <= st or a >= en:
+                continue
+            gd = m.groupdict()
+            if (a, b) != (st, en) or any(gd.get(k) != v for k, v in groups.items()) or o.extra["short"]:
+                rec.count("second_pattern_tie")
+                rec.count("db_member_tie")
+                return
+    fail(rec, "db_member", case, observed=[(M.kind(c), c.span(), c.groups) for c in cs],
+         expected=dict(kind=cls.__name__, span=(st, en), groups=groups))
 
 
 def db_examples():
@@ -904,6 +1006,7 @@ def run_shard(spec, rec):
     run_minimal(spec, rec, rng)
     run_literals(spec, rec, rng)
     run_law_literals(spec, rec, rng)
+    run_db_members(spec, rec, rng)
     run_examples(spec, rec, rng)
     rec.c01_tag = None
     run_courts(spec, rec, rng)
@@ -926,7 +1029,7 @@ def replay(w, rec):
         return
     t = c["text"]
     rec.note("re-extraction of witness text: " + repr([(M.kind(x), x.span(), x.full_span(), x.groups, x.metadata) for x in get_citations(t)])[:1500])
-    if "origin" in c and "core" in c and "law" in c["origin"]:
+    if "origin" in c and "core" in c and ("law" in c["origin"] or "db" in c["origin"]):
         return
     if "origin" in c and "core" in c:
         o = c["origin"]
